@@ -209,7 +209,7 @@ def fill_pair(task):
     gc.freeze()
     gc.disable()
     ex = sched.Explorer(prefix, 'line')
-    ex.after = lambda: probe_values(k)
+    ex.after = lambda: sched.call_value(lambda: probe_values(k)) == probe_val
     if CAP is not None:
         ex.occ_total = ex.count_sites(lambda: a5.cell_to_lonlat(ca))
         ex.occ_cap = (3, 1)
@@ -225,7 +225,7 @@ def fill_pair(task):
         probe = None
         if isinstance(vb, tuple) and len(vb) == 3 and vb[0] == 'with-probe':
             vb, probe = vb[1], vb[2]
-        if va == 'crash' or va != fvals[ca][0] or vb != fvals[cb][1] or (probe is not None and probe != probe_val):
+        if va == 'crash' or va != fvals[ca][0] or vb != fvals[cb][1] or (probe is not None and probe != ('ok', True)):
             what = va[1] if isinstance(va, tuple) and va[0] == 'exc' else (vb[1] if isinstance(vb, tuple) and vb[0] == 'exc' else 'a value differs from the single-threaded one')
             acc.violation(skey, f'with {n} other triangles already cached: cell_to_lonlat({ca:#x}) preempted at {site[0]}:{site[2]} ({site[1]}) by cell_to_boundary({cb:#x}): {what}', case)
             continue
@@ -257,7 +257,8 @@ def pair(task):
     gc.freeze()          # fewer copy-on-write faults in the forked children
     gc.disable()
     ex = sched.Explorer(prefix, gran)
-    ex.after = lambda: probe_values(k)
+    want_probe = solo_vals['<probe>']
+    ex.after = lambda: sched.call_value(lambda: probe_values(k)) == want_probe      # compared in the child: one boolean travels back
     if CAP is not None:
         ex.occ_total = ex.count_sites(menu[an])
         ex.occ_cap = CAP
@@ -295,7 +296,7 @@ def pair(task):
             acc.violation(skey + ':B', f'{bn} run inside {an} at {site[0]}:{site[2]} ({site[1]}): {bn} {what}', case)
             bad += 1
             continue
-        if probe is not None and probe != solo_vals['<probe>']:
+        if probe is not None and probe != ('ok', True):
             what = 'raised ' + probe[1] if probe[0] == 'exc' else 'returned different values'
             acc.violation(skey + ':after', f'after {bn} ran inside {an} at {site[0]}:{site[2]} ({site[1]}) both returned correct values, but later single-threaded calls {what}: the library state was corrupted', case)
             bad += 1
